@@ -85,8 +85,11 @@ type step struct {
 	NewW   int      `json:"new_window_s,omitempty"`
 	Tag    string   `json:"tag,omitempty"`
 	// the gateway's metrics collection reads the counters (RateLimitState.Counters, the quota_used gauge of the
-	// plugin) before this step: 1 = at the step's own instant, 2 = half-way between the previous step and this one
-	Read int `json:"metrics_read,omitempty"`
+	// plugin) before this step: 1 = at the step's own instant, 2 = half-way between the previous step and this one,
+	// 3 (single requests) = the read is in progress when the request arrives: the request is issued from another
+	// goroutine when the read takes its ReadAt-th clock reading, and the read waits up to 300 us for it
+	Read   int `json:"metrics_read,omitempty"`
+	ReadAt int `json:"request_at_clock_reading,omitempty"`
 	// realloc: the policies are applied again with other percentages for the remedy's groups (same remedy
 	// name, allowed count and window): per listed group, then the default percentage
 	NewPcts []float64 `json:"new_percentages,omitempty"`
@@ -220,7 +223,7 @@ func run(c caseSpec, keep func(remedy int, group string) bool) (map[int][]verdic
 	last := int64(0)
 	for i, s := range c.Steps {
 		rs := cur[s.Remedy]
-		if s.Read != 0 && (s.Kind == "req" || s.Kind == "burst") {
+		if s.Read != 0 && !(s.Read == 3 && s.Kind == "req") && (s.Kind == "req" || s.Kind == "burst") {
 			at := s.At
 			if s.Read == 2 {
 				at = last + (s.At-last)/2
@@ -243,6 +246,39 @@ func run(c caseSpec, keep func(remedy int, group string) bool) (map[int][]verdic
 			h.clk.Set(baseNs + s.At)
 			h.seq++
 			sc := h.scopedFor(rs, curW[s.Remedy])
+			if s.Read == 3 {
+				var v verdict
+				goReq, reqDone := make(chan struct{}), make(chan struct{})
+				req := mkRequest(rs, s.Group, h.seq)
+				go func() {
+					<-goReq
+					v = decodeAction(h.plugin.OnRequest(req, sc))
+					close(reqDone)
+				}()
+				var readings atomic.Int32
+				var fired atomic.Bool
+				hook := func() {
+					if fired.Load() {
+						return
+					}
+					if int(readings.Add(1)) == s.ReadAt && fired.CompareAndSwap(false, true) {
+						close(goReq)
+						select {
+						case <-reqDone:
+						case <-time.After(300 * time.Microsecond):
+						}
+					}
+				}
+				h.clk.hook.Store(&hook)
+				_ = h.state.Counters()
+				h.clk.hook.Store(nil)
+				if fired.CompareAndSwap(false, true) {
+					close(goReq)
+				}
+				<-reqDone
+				out[i] = []verdict{v}
+				continue
+			}
 			out[i] = []verdict{decodeAction(h.plugin.OnRequest(mkRequest(rs, s.Group, h.seq), sc))}
 		case "burst":
 			h.clk.Set(baseNs + s.At)
@@ -260,6 +296,20 @@ func run(c caseSpec, keep func(remedy int, group string) bool) (map[int][]verdic
 				workers = 8 // each caller then issues several requests back to back
 			}
 			n := int32(workers)
+			// a burst that carries a metrics read has the read going on all the while: the gauge's collection runs
+			// on its own goroutine, next to the transactions
+			var burstOver atomic.Bool
+			readerDone := make(chan struct{})
+			if s.Read != 0 {
+				go func() {
+					defer close(readerDone)
+					for k := 0; k < 3000 && !burstOver.Load(); k++ {
+						_ = h.state.Counters()
+					}
+				}()
+			} else {
+				close(readerDone)
+			}
 			for w := 0; w < workers; w++ {
 				wg.Add(1)
 				go func(w int) {
@@ -278,6 +328,8 @@ func run(c caseSpec, keep func(remedy int, group string) bool) (map[int][]verdic
 				}(w)
 			}
 			wg.Wait()
+			burstOver.Store(true)
+			<-readerDone
 			out[i] = res
 		}
 	}
@@ -642,6 +694,7 @@ type intent struct {
 	NewW   int
 	Pcts   []float64
 	Read   int
+	ReadAt int
 }
 
 func genIntent(o genOpts) *rapid.Generator[intent] {
@@ -682,7 +735,10 @@ func genIntent(o genOpts) *rapid.Generator[intent] {
 			in.DK = rapid.SampledFrom([]int{0, 0, 1}).Draw(t, "dk")
 		}
 		in.Group = rapid.IntRange(0, 2).Draw(t, "group")
-		in.Read = rapid.SampledFrom([]int{0, 0, 0, 0, 0, 1, 2}).Draw(t, "metrics-read")
+		in.Read = rapid.SampledFrom([]int{0, 0, 0, 0, 0, 0, 1, 2, 3}).Draw(t, "metrics-read")
+		if in.Read == 3 {
+			in.ReadAt = rapid.IntRange(1, 3).Draw(t, "at-reading")
+		}
 		if in.Kind == "burst" {
 			in.Others = rapid.SliceOfN(rapid.SampledFrom([]int{-1, -1, -1, -1, -1, -1, -1, 0, 1, 2}), 1, 31).Draw(t, "others")
 		}
@@ -739,7 +795,7 @@ func genCase(t *rapid.T, o genOpts) caseSpec {
 			at++ // every grid instant is a whole second: stay off the grid
 		}
 		now = at
-		s := step{Kind: in.Kind, Remedy: ri, At: at, Tag: tag, Read: in.Read}
+		s := step{Kind: in.Kind, Remedy: ri, At: at, Tag: tag, Read: in.Read, ReadAt: in.ReadAt}
 		g := gv[in.Group%len(gv)]
 		if in.Kind == "req" {
 			s.Group = g
